@@ -322,3 +322,234 @@ Example C16_mtm_year0_example :
   | _, _ => False
   end.
 Proof. vm_compute. repeat split; reflexivity. Qed.
+
+(* ================================================================== the text reads back to the items *)
+(* The theorems above are about the emitted items; the executable verdict works on text.  The
+   reader of Spec/BeancountSpec.v applied to the text Model/Beancount.v writes gives back the
+   valuation commodity as written and the erased items, for EVERY valuation commodity and EVERY
+   list of items that satisfy the lexical side conditions of Spec/BeancountLex.v:
+     commodity_lex_b v   V has no newline and no double quote, stripNonAlphanum(V) is not empty;
+     entries_lex_b es    dates in the years 0000..9999; account names not empty, without space,
+                         newline and double quote; descriptions without double quote (newlines
+                         are allowed: knut's parser accepts them, C16_linewise_reader_refuted).
+   Amounts come back as they are after a trip through Decimal.String (DecNormalForm.reread: the
+   same value, trailing zeros dropped, positive exponents expanded; reread_entries applies it to
+   every amount).  With the amounts themselves the statement is false
+   (C16_text_roundtrip_exact_refuted); no clause of the verdict can tell the difference
+   (C16_verdict_on_model_text).
+   Proofs/BeancountRead.v. *)
+From Knut Require Import Spec.BeancountLex Proofs.DecNormalForm Proofs.BeancountRead Proofs.BeancountVerdict
+     Proofs.BeancountLexDays.
+Open Scope Z_scope.
+
+Theorem C16_text_roundtrip : forall v es,
+  commodity_lex_b v = true -> entries_lex_b es = true ->
+  read_ledger (s_option ++ v ++ [34;10;10] ++ concat (map (write_entry v) es))
+  = Some (v, reread_entries (erase_entries v es)).
+Proof. exact read_ledger_text. Qed.
+Print Assumptions C16_text_roundtrip.
+
+(* the statement as first written,
+     read_ledger (s_option ++ v ++ [34;10;10] ++ concat (map (write_entry v) es)) = Some (v, erase_entries v es),
+   is false of the model: 1.0 CHF booked in a ledger valued in CHF is carried as 10 * 10^-1,
+   printed as "1" and read as 1 * 10^0 *)
+Definition c16_trailing_zero_witness : list sdirective :=
+  let acc s := acc_of_name s in
+  let P := [65;115;115;101;116;115;58;80] (* Assets:P *) in
+  let E := [69;113;117;105;116;121;58;69] (* Equity:E *) in
+  let d0 := Date.of_civil 2020 1 1 in
+  [ SOpen d0 (acc P); SOpen d0 (acc E);
+    STxn (mkStxn d0 [66;117;121] [mkBooking (acc E) (acc P) (mkDec 10 (-1)) chf] None None) ].
+
+Theorem C16_text_roundtrip_exact_refuted :
+  exists sds v dl days,
+    parse_directives sds = MOk dl /\ journal_lex_b dl = true /\ commodity_lex_b v = true /\
+    transcode_days true v sds = COk days /\
+    read_ledger (transcode days v) <> Some (v, erase_entries v (transcode_entries days [])).
+Proof.
+  exists c16_trailing_zero_witness, chf. eexists. eexists.
+  split; [vm_compute; reflexivity|]. split; [vm_compute; reflexivity|]. split; [vm_compute; reflexivity|].
+  split; [vm_compute; reflexivity|]. vm_compute. discriminate.
+Qed.
+Print Assumptions C16_text_roundtrip_exact_refuted.
+
+(* the executable comparison the check used to run on every case (amounts through Decimal.String)
+   is therefore a theorem *)
+Theorem C16_roundtrip_check : forall v days,
+  commodity_lex_b v = true -> entries_lex_b (transcode_entries days []) = true -> roundtrip_b v days = true.
+Proof. exact roundtrip_b_true. Qed.
+Print Assumptions C16_roundtrip_check.
+
+(* the items `knut transcode` emits satisfy the side condition whenever the journal's directives
+   (after accrual expansion, as in postings_syntactic) are lexical: years 0000..9999; account
+   segments without space, newline and double quote, the first one not empty; descriptions and
+   commodities without double quote.  This is less than knut's parser guarantees.  It is more
+   than postings_syntactic (account_ok allows a space inside a segment and says nothing about
+   dates): C16_space_in_account_example.  Proofs/BeancountLexDays.v: the builder, day_step for
+   Sort/ComputePrices/Check, and for Valuate the invariant that every position held comes from a
+   lexical posting (the adjustments and their descriptions are built from the positions). *)
+Theorem C16_emitted_items_lexical : forall l v sds dl days,
+  parse_directives sds = MOk dl -> journal_lex_b dl = true ->
+  transcode_days l v sds = COk days ->
+  entries_lex_b (transcode_entries days []) = true.
+Proof. exact transcode_days_entries_lex. Qed.
+Print Assumptions C16_emitted_items_lexical.
+
+Theorem C16_model_text_roundtrip : forall l v sds dl days,
+  parse_directives sds = MOk dl -> journal_lex_b dl = true -> commodity_lex_b v = true ->
+  transcode_days l v sds = COk days ->
+  read_ledger (transcode days v) = Some (v, reread_entries (erase_entries v (transcode_entries days []))) /\
+  roundtrip_b v days = true.
+Proof.
+  intros l v sds dl days Hp Hj Hv H.
+  pose proof (transcode_days_entries_lex l v sds dl days Hp Hj H) as Hes.
+  split; [exact (read_ledger_text v _ Hv Hes)|exact (roundtrip_b_true v days Hv Hes)].
+Qed.
+Print Assumptions C16_model_text_roundtrip.
+
+(* Hence the verdict of the check on the model's own text is what the three clauses say about the
+   erased items -- the objects of C16_balanced, C16_chronological, C16_complete,
+   C16_open_before_use, C16_adjusted_account_open and C16_ledger_mark_to_market.  (The clauses look
+   at values of amounts only: Proofs/BeancountVerdict.v.) *)
+Theorem C16_verdict_on_model_text : forall l v sds dl days,
+  parse_directives sds = MOk dl -> journal_lex_b dl = true -> commodity_lex_b v = true ->
+  transcode_days l v sds = COk days ->
+  let es := erase_entries v (transcode_entries days []) in
+  c16_verdict_mtm sds v (transcode days v)
+  = verdict_of (beancount_check v es ++ complete_check sds es ++ mtm_check dl v es).
+Proof.
+  intros l v sds dl days Hp Hj Hv H es.
+  rewrite (verdict_on_model_text sds v days Hv (transcode_days_entries_lex l v sds dl days Hp Hj H)).
+  unfold c16_violations. rewrite Hp. reflexivity.
+Qed.
+Print Assumptions C16_verdict_on_model_text.
+
+(* hypotheses satisfiable, statement not vacuous: the witness of C16_valuation_open_refuted is
+   lexical, and the right-hand side of C16_verdict_on_model_text evaluates to F16's verdict *)
+Example C16_verdict_on_model_text_example :
+  match parse_directives c16_witness, transcode_days true chf c16_witness with
+  | MOk dl, COk days =>
+    let es := erase_entries chf (transcode_entries days []) in
+    journal_lex_b dl = true /\ commodity_lex_b chf = true /\
+    entries_lex_b (transcode_entries days []) = true /\
+    verdict_of (beancount_check chf es ++ complete_check c16_witness es ++ mtm_check dl chf es)
+    = [70;65;73;76;58] ++ k_unopened_val ++ [32] ++ [73;110;99;111;109;101;58;80]
+  | _, _ => False
+  end.
+Proof. vm_compute. repeat split; reflexivity. Qed.
+
+(* ---- the reader before this theorem was attempted split the text at every newline.  knut's
+   parser reads a description up to the next double quote (parseQuotedString), newlines included,
+   and writeTrx prints it as it is (a multi-line string, legal beancount).  On such a journal the
+   line-wise reader rejected a correct ledger (verdict FAIL:unreadable); read_ledger now keeps a
+   newline inside a double-quoted string in the line (split_lines).  Witness: the journal of
+   C16_valuation_open_refuted with the description "Buy\nmore". *)
+Definition c16_multiline_witness : list sdirective :=
+  let acc s := acc_of_name s in
+  let P := [65;115;115;101;116;115;58;80] (* Assets:P *) in
+  let E := [69;113;117;105;116;121;58;69] (* Equity:E *) in
+  let aapl := [65;65;80;76] in
+  let d0 := Date.of_civil 2020 1 1 in
+  [ SOpen d0 (acc P); SOpen d0 (acc E);
+    SPrice d0 aapl (mkDec 100 0) chf;
+    SPrice (d0 + 2) aapl (mkDec 110 0) chf;
+    STxn (mkStxn (d0 + 1) [66;117;121;10;109;111;114;101] [mkBooking (acc E) (acc P) (mkDec 1 0) aapl] None None) ].
+
+Theorem C16_linewise_reader_refuted :
+  exists sds v dl days,
+    parse_directives sds = MOk dl /\ journal_lex_b dl = true /\ commodity_lex_b v = true /\
+    transcode_days true v sds = COk days /\
+    read_ledger_linewise (transcode days v) = None /\
+    read_ledger (transcode days v) = Some (v, reread_entries (erase_entries v (transcode_entries days []))).
+Proof.
+  exists c16_multiline_witness, chf. eexists. eexists.
+  split; [vm_compute; reflexivity|]. split; [vm_compute; reflexivity|]. split; [vm_compute; reflexivity|].
+  split; [vm_compute; reflexivity|]. split; vm_compute; reflexivity.
+Qed.
+Print Assumptions C16_linewise_reader_refuted.
+
+(* ---- the side condition is needed, and postings_syntactic does not imply it: an account segment
+   with a space (account_ok allows it; knut's parser does not) -- the posting line then has four
+   fields and the reader rejects it *)
+Example C16_space_in_account_example :
+  let sds := [ SOpen 737425 [s_Assets; [65;32;66]]; SOpen 737425 [s_Equity; [69]];
+               STxn (mkStxn 737425 [66] [mkBooking [s_Equity; [69]] [s_Assets; [65;32;66]] (mkDec 1 0) chf] None None) ] in
+  match parse_directives sds, transcode_days true chf sds with
+  | MOk dl, COk days =>
+    Spec.LedgerSyntax.postings_syntactic_b dl = true /\ journal_lex_b dl = false /\ roundtrip_b chf days = false
+  | _, _ => False
+  end.
+Proof. vm_compute. repeat split; reflexivity. Qed.
+
+(* ---- a second repair of the executable verdict found while stating the corollary: bst_init
+   started the order clause at day 0 = 0001-01-01, so the first entry of a ledger of the year 0000
+   (negative day numbers; time.Parse and knut accept them) was reported as FAIL:order.  It now
+   starts at 0000-01-01, the least date the reader can return.  The year-0000 journal of
+   C16_mtm_year0_example: *)
+Example C16_order_year0_example :
+  match transcode_cmd true (Some chf) c16_year0_witness with
+  | COk text => c16_verdict_mtm c16_year0_witness chf text = s_ok
+  | _ => False
+  end.
+Proof. vm_compute. reflexivity. Qed.
+
+(* ================================================================== the verdict on the model's own text *)
+(* With C16_verdict_on_model_text the verdict of the check on the text the model writes is decided
+   by the three clauses on the erased items.  The full statement would be
+
+     Theorem C16_model_verdict : forall l v sds dl days,
+       parse_directives sds = MOk dl -> postings_syntactic dl -> journal_lex_b dl = true ->
+       commodity_lex_b v = true -> transcode_days l v sds = COk days ->
+       let es := erase_entries v (transcode_entries days []) in
+       Forall (fun x => v_known_shape x = true /\ (v_kind x = k_unopened_val \/ v_kind x = k_closed_val))
+              (beancount_check v es ++ complete_check sds es ++ mtm_check dl v es)
+       (* hence c16_verdict_mtm sds v (transcode days v) is `ok`, or `FAIL:unopened-valuation-account A`
+          (F16), or `FAIL:closed-valuation-account A` (F16b) for a valuation account A = Income:... *)
+
+   Proved below (C16_model_verdict_partial): mtm_check finds nothing (C16_ledger_mark_to_market);
+   beancount_check raises no order, unbalanced or commodity violation, and every violation it
+   raises is a posting violation (kind unopened, use-after-close, unopened-valuation-account or
+   closed-valuation-account) of a posting of a VALUE ADJUSTMENT on an account that is not an asset
+   or liability account -- i.e. on the Income:... account of F16/F16b (C16_chronological,
+   C16_balanced, C16_open_before_use, C16_adjusted_account_open carried to the reader's state:
+   Proofs/BeancountVerdict.v part 4, Proofs/BeancountVerdictOpen.v).
+   Not proved: that check_posting classifies each of these as the known shape (valuation_posting
+   parses "Adjust value of C in account A" back; needs commodities without space and account
+   segments without colon) and that complete_check = [] (every user transaction found, one
+   adjustment per day and description: needs the uniqueness of Valuate's position keys).  Both are
+   evaluated on every case on the binary's output, which is byte-identical to the model's text. *)
+From Knut Require Import Proofs.BeancountVerdictOpen.
+
+Theorem C16_model_verdict_partial : forall l v sds dl days,
+  parse_directives sds = MOk dl -> postings_syntactic dl -> journal_lex_b dl = true ->
+  commodity_lex_b v = true -> transcode_days l v sds = COk days ->
+  let es := erase_entries v (transcode_entries days []) in
+  c16_verdict_mtm sds v (transcode days v) = verdict_of (beancount_check v es ++ complete_check sds es) /\
+  mtm_check dl v es = [] /\
+  Forall (fun x =>
+            (v_kind x = k_unopened \/ v_kind x = k_use_after_close \/ v_kind x = k_unopened_val \/ v_kind x = k_closed_val) /\
+            exists pre t post p,
+              transcode_entries days [] = pre ++ BTxn t :: post /\ adjustment (t_date t) t /\
+              In p (t_postings t) /\ is_AL (p_acc p) = false /\ v_detail x = acc_name (p_acc p))
+         (beancount_check v es).
+Proof.
+  intros l v sds dl days Hp Hsyn Hj Hv H es.
+  pose proof (transcode_mtm_check l v sds dl days Hp Hsyn H) as Hm. fold es in Hm.
+  split; [|split; [exact Hm|exact (beancount_check_model l v sds dl days Hp Hsyn Hj H)]].
+  rewrite (C16_verdict_on_model_text l v sds dl days Hp Hj Hv H). fold es. rewrite Hm, app_nil_r. reflexivity.
+Qed.
+Print Assumptions C16_model_verdict_partial.
+
+(* the hypotheses hold of the witness of C16_valuation_open_refuted, and the one violation is the
+   posting of the adjustment on Income:P *)
+Example C16_model_verdict_example :
+  match parse_directives c16_witness, transcode_days true chf c16_witness with
+  | MOk dl, COk days =>
+    Spec.LedgerSyntax.postings_syntactic_b dl = true /\ journal_lex_b dl = true /\
+    map (fun x => (v_kind x, v_detail x, v_known_shape x))
+        (beancount_check chf (erase_entries chf (transcode_entries days [])))
+    = [(k_unopened_val, [73;110;99;111;109;101;58;80], true)] /\
+    complete_check c16_witness (erase_entries chf (transcode_entries days [])) = []
+  | _, _ => False
+  end.
+Proof. vm_compute. repeat split; reflexivity. Qed.
